@@ -49,7 +49,7 @@ HintedOf(U, n) == IF ~U.pkg[n].exists THEN {}
 GRP0 == [id |-> 0, kind |-> "", sol |-> <<>>, msg |-> "", calls |-> <<>>, profile |-> ""]
 BB0 == [callseq |-> <<>>, dcalls |-> {}, ccalls |-> {}, dret |-> {}, cret |-> {}, kreqs |-> {}, knames |-> {},
         cancelSeen |-> FALSE, cancelVal |-> 0, prevSolves |-> 0, callsThisSolve |-> 0]
-WB0 == [cls |-> <<>>, nlearnt |-> 0, trail |-> <<>>, lv |-> <<>>, why |-> <<>>, base |-> 0, A |-> {}, vsolv |-> <<>>, vhelp |-> <<>>, on |-> FALSE]
+WB0 == [cls |-> <<>>, nlearnt |-> 0, trail |-> <<>>, lv |-> <<>>, why |-> <<>>, base |-> 0, unsat |-> 0, A |-> {}, vsolv |-> <<>>, vhelp |-> <<>>, on |-> FALSE]
 
 Init == /\ l = 1
         /\ ctx = [id |-> -1, k |-> 0, begin |-> 0]
@@ -317,7 +317,8 @@ SharedLearntReason ==
 
 \* the clause ids the solver reports for an Unsolvable verdict
 UnsatIds ==
-  /\ E("unsatids") /\ UNCHANGED <<ctx, bb, wb, grp>>
+  /\ E("unsatids") /\ UNCHANGED <<ctx, bb, grp>>
+  /\ wb' = [wb EXCEPT !.unsat = l]
   /\ (IF RuleOn("C03") /\ SharedLearntReason THEN Cover(<<"sharedlearntreason">>) ELSE TRUE)
   /\ Chk("C02", UP(AllLits, {<<0, 1>>}) = {<<-1, -1>>}, "C02_RUPRefutation", 0)
   /\ Chk("C03", \A i \in Range(Rec[l].ids) : HasClause(i) /\ ClauseKind(i) # "learnt",
@@ -427,6 +428,59 @@ ResultSat(r) ==
                      \o (IF bb.prevSolves > 0 /\ bb.callsThisSolve = 0 THEN <<"reused_nocalls">> ELSE <<>>)
                      \o (IF wb.on /\ wb.nlearnt > 0 THEN <<"learnt">> ELSE <<>>))
 
+(***************************************************************************)
+(* Operational model of Conflict::graph (src/conflict.rs): the conflict     *)
+(* graph is a fold over the reported clauses, in the order they were        *)
+(* reported.  Edges are compared up to node numbering, as a bag of          *)
+(*   <<kind, source solvable (0 = root), target solvable (-1 = the          *)
+(*     unresolved node, -2 = an exclusion node), version sets, locked>>.    *)
+(*   requires     one edge per candidate of the requirement (the unresolved *)
+(*                node if it has none), labelled with the requirement       *)
+(*   constrains   parent -> forbidden candidate, labelled with the set      *)
+(*   lock         root -> the other candidate, remembering the locked one   *)
+(*   excluded     solvable -> exclusion node                                *)
+(*   forbid       the solvables of one package named by reported forbid     *)
+(*                clauses are chained in the order of the report            *)
+(* This is conformance (how the code builds the picture), not the property: *)
+(* C03 is decided by EdgeTrue / GroupExact / Reachable / Refutes on the     *)
+(* graph the code produced.                                                 *)
+(***************************************************************************)
+RECURSIVE ModelEdges(_, _, _)
+ModelEdges(ids, k, last) ==      \* last: <<package, solvable>> pairs (forbid chains)
+  IF k > Len(ids) THEN <<>>
+  ELSE IF ~HasClause(ids[k]) \/ Rec[wb.cls[ids[k]]].ev # "clause" THEN ModelEdges(ids, k + 1, last)
+  ELSE LET c == Rec[wb.cls[ids[k]]] IN
+       CASE c.kind = "requires" ->
+              LET par == SolvOfVar(c.a)
+                  cs  == Concat(c.cands)
+              IN (IF cs = <<>> THEN << <<"req", par, -1, c.vs, 0>> >>
+                  ELSE [i \in DOMAIN cs |-> <<"req", par, SolvOfVar(cs[i]), c.vs, 0>>])
+                 \o ModelEdges(ids, k + 1, last)
+         [] c.kind = "constrains" ->
+              << <<"cons", SolvOfVar(c.a), SolvOfVar(c.b), c.vs, 0>> >> \o ModelEdges(ids, k + 1, last)
+         [] c.kind = "lock" ->
+              << <<"lock", 0, SolvOfVar(c.b), <<>>, SolvOfVar(c.a)>> >> \o ModelEdges(ids, k + 1, last)
+         [] c.kind = "excluded" ->
+              << <<"excl", SolvOfVar(c.a), -2, <<>>, 0>> >> \o ModelEdges(ids, k + 1, last)
+         [] c.kind = "forbid" ->
+              LET x    == SolvOfVar(c.a)
+                  prev == {q \in last : q[1] = c.b}
+                  nl   == (last \ prev) \cup {<<c.b, x>>}
+              IN (IF prev = {} THEN <<>>
+                  ELSE << <<"forbid", (CHOOSE q \in prev : TRUE)[2], x, <<>>, 0>> >>)
+                 \o ModelEdges(ids, k + 1, nl)
+         [] OTHER -> ModelEdges(ids, k + 1, last)
+RealEdges(G) ==
+  [e \in DOMAIN G.edges |->
+     LET ed == G.edges[e]
+         tn == G.nodes[ed.t]
+     IN <<ed.k, NodeSolv(G, ed.s),
+          IF tn.k = "unres" THEN -1 ELSE IF tn.k = "excl" THEN -2 ELSE NodeSolv(G, ed.t),
+          ed.vs, ed.x>>]
+BagOfSeq(q) == [x \in Range(q) |-> Cardinality({i \in DOMAIN q : q[i] = x})]
+GraphAsModel(G) ==
+  wb.unsat = 0 \/ BagOfSeq(RealEdges(G)) = BagOfSeq(ModelEdges(Rec[wb.unsat].ids, 1, {}))
+
 ResultUnsat(r) ==
   LET G == r.graph
       \* the DPLL oracle is asked for every universe of up to OracleBound solvables; beyond
@@ -446,6 +500,8 @@ ResultUnsat(r) ==
   /\ Chk("C03", Refutes(u, G), "C03_NotSelfContained", 0)
   /\ Chk("C04", ~cfg.render \/ RenderOK(G, r.lines), "C04_RenderTooLong", <<r.lines, Len(G.edges)>>)
   /\ Cover(<<"unsat">> \o (IF small THEN <<"oracle">> ELSE <<>>)
+                       \o (IF ~(wb.on /\ RuleOn("C03")) THEN <<>>
+                           ELSE IF GraphAsModel(G) THEN <<"graph_as_model">> ELSE <<"graph_differs_from_model">>)
                        \o (IF Cardinality(SolvNodes(G)) >= 4 THEN <<"graph4">> ELSE <<>>)
                        \o (IF p.soft # <<>> THEN <<"soft">> ELSE <<>>)
                        \o (IF bb.prevSolves > 0 THEN <<"reused">> ELSE <<>>)
